@@ -1,23 +1,23 @@
 """Registry: which units serve which property, the level each property is claimed at, and the manifest texts."""
 REGISTRY = {
     'C01': ['base_core', 'handles', 'connect', 'result'],
-    'C06': ['base_core', 'handles', 'connect', 'shared_contract', 'core'],
-    'C02': ['core', 'result', 'entry', 'attach'],
-    'C03': ['base_core', 'handles', 'core', 'event', 'strand', 'when', 'intrusive_ptr', 'connect', 'ownership', 'entry', 'shared_contract'],
+    'C06': ['base_core', 'handles', 'connect', 'shared_contract', 'core', 'attach', 'coro'],
+    'C02': ['core', 'result', 'entry', 'attach', 'handles'],
+    'C03': ['base_core', 'handles', 'core', 'event', 'strand', 'when', 'intrusive_ptr', 'connect', 'ownership', 'entry', 'shared_contract', 'coro'],
     'C04': ['base_core', 'strand', 'event', 'coro_mutex', 'spinlock'],
-    'C05': ['thread_pool', 'strand', 'core', 'handles', 'ownership', 'entry', 'attach'],
+    'C05': ['thread_pool', 'strand', 'core', 'handles', 'ownership', 'entry', 'attach', 'coro'],
     'C07': ['strand'],
     'C08': ['thread_pool'],
     'C09': ['when'],
     'C10': ['any', 'when'],
     'C11': ['wait', 'event', 'base_core'],
-    'C12': ['core', 'handles', 'entry', 'attach'],
+    'C12': ['core', 'handles', 'entry', 'attach', 'coro'],
     'C13': ['coro', 'base_core', 'event'],
     'C14': ['coro_mutex', 'guards'],
     'C15': ['shared_mutex', 'coro_mutex', 'guards', 'spinlock'],
     'C16': ['event', 'base_core'],
     'C17': ['fault_sched', 'sleep_map'],
-    'C18': ['fiber_locks', 'sleep_map', 'tls'],
+    'C18': ['fiber_locks', 'sleep_map', 'tls', 'fault_sched'],
     'C19': ['atomic'],
     'C20': ['alloc'],
 }
